@@ -5,6 +5,8 @@ package lib
 
 import (
 	"fmt"
+	"strconv"
+	"strings"
 
 	jp "github.com/evanphx/json-patch/v5"
 	"github.com/evanphx/json-patch/v5/xverif/ev"
@@ -206,4 +208,21 @@ func PrefixText(patchText string, k int) string {
 		out += patchText[pt.Arr[j].S:pt.Arr[j].E]
 	}
 	return out + "]"
+}
+
+// BigIndex: the pointer holds a numeric reference token above 10^4. Under
+// EnsurePathExistsOnAdd such an index makes the library (and any model of it)
+// pad an array element by element; C04's quantifier places it outside the
+// stated domain, and every check that sets the option skips such cases.
+func BigIndex(path string) bool {
+	for _, tk := range strings.Split(path, "/") {
+		d := strings.TrimLeft(tk, "+-")
+		if d == "" || strings.Trim(d, "0123456789") != "" {
+			continue
+		}
+		if n, err := strconv.Atoi(d); err != nil || n > 10000 {
+			return true
+		}
+	}
+	return false
 }
